@@ -439,6 +439,14 @@ var tableChoices = []struct {
 }{
 	{"Lu", unicode.Lu}, {"Nd", unicode.Nd}, {"Greek", unicode.Greek}, {"Han", unicode.Han}, {"Sc", unicode.Sc},
 	{"Zs", unicode.Zs}, {"ASCII_Hex_Digit", unicode.ASCII_Hex_Digit}, {"Co", unicode.Co}, {"Me", unicode.Me},
+	// tables of the user's own that cover the same ranges with different strides (a table is more than its Lo/Hi pairs)
+	{"user[100-140/1]", &unicode.RangeTable{R16: []unicode.Range16{{Lo: 0x100, Hi: 0x140, Stride: 1}}}},
+	{"user[100-140/2]", &unicode.RangeTable{R16: []unicode.Range16{{Lo: 0x100, Hi: 0x140, Stride: 2}}}},
+	{"user[100-13f/3]", &unicode.RangeTable{R16: []unicode.Range16{{Lo: 0x100, Hi: 0x13f, Stride: 3}}}},
+	{"user[10000-10100/16]", &unicode.RangeTable{R32: []unicode.Range32{{Lo: 0x10000, Hi: 0x10100, Stride: 16}}}},
+	{"user[10000-10100/1]", &unicode.RangeTable{R32: []unicode.Range32{{Lo: 0x10000, Hi: 0x10100, Stride: 1}}}},
+	{"user[41-5a/1,100-140/8]", &unicode.RangeTable{R16: []unicode.Range16{{Lo: 0x41, Hi: 0x5a, Stride: 1}, {Lo: 0x100, Hi: 0x140, Stride: 8}}, LatinOffset: 1}},
+	{"user[41-5a/5,100-140/1]", &unicode.RangeTable{R16: []unicode.Range16{{Lo: 0x41, Hi: 0x5a, Stride: 5}, {Lo: 0x100, Hi: 0x140, Stride: 1}}, LatinOffset: 1}},
 }
 
 var runeChoices = [][]rune{
@@ -1100,6 +1108,48 @@ func buildGX(r *rng, o gxOpts) *GX {
 		if r.chance(1, 2) {
 			desc := fmt.Sprintf("Deferred(%s)", e.Desc)
 			return &GX{Desc: desc, Gen: rapid.Deferred(func() *rapid.Generator[any] { return e.Gen }), Cmp: e.Cmp, Int: e.Int, Rej: e.Rej, post: e.post, Check: e.Check}
+		}
+		if r.chance(1, 3) {
+			// a recursive tree whose children are distinct by key: ONE SliceOfNDistinct generator object is re-entered
+			// while it is in the middle of producing a value (each child draws its own children from it)
+			var dnode *rapid.Generator[any]
+			dtree := int64(r.next() >> 1)
+			key := func(v any) int {
+				if n, ok := v.(recNode); ok {
+					return 100 + len(n.kids)
+				}
+				return v.(int)
+			}
+			dnode = rapid.OneOf(
+				rapid.IntRange(0, 6).AsAny(),
+				rapid.Map(rapid.SliceOfNDistinct(rapid.Deferred(func() *rapid.Generator[any] { return dnode }), 0, 4, key), func(s []any) any { return recNode{dtree, s} }),
+			)
+			desc := "RecTreeDistinct(IntRange(0,6))"
+			var chk func(v any) string
+			chk = func(v any) string {
+				n, ok := v.(recNode)
+				if !ok {
+					if i, ok := v.(int); !ok || i < 0 || i > 6 {
+						return fmt.Sprintf("%s: leaf %#v", desc, v)
+					}
+					return ""
+				}
+				if n.tree != dtree || len(n.kids) > 4 {
+					return fmt.Sprintf("%s: node with %d children", desc, len(n.kids))
+				}
+				seen := map[int]bool{}
+				for _, k := range n.kids {
+					if seen[key(k)] {
+						return fmt.Sprintf("%s: two children of one node have the same key %d (children %s)", desc, key(k), clip(canon(n.kids), 200))
+					}
+					seen[key(k)] = true
+					if c := chk(k); c != "" {
+						return c
+					}
+				}
+				return ""
+			}
+			return &GX{Desc: desc, Gen: dnode, Rej: true, Check: chk}
 		}
 		var node *rapid.Generator[any]
 		// nodes carry the identity of their tree: a leaf may itself be a node of ANOTHER recursive tree
